@@ -26,7 +26,9 @@ PRIMS = ["-name", "-iname", "-path", "-ipath", "-wholename", "-iwholename", "-ln
 GLOBS = ["ab", "AB", "a*", "*b", "?b", "[ab]b", "*.c", "r/ab", "r/*", "*/ab", "R/*B", "t*", "T?", "*", "r", "sub", "s*b/ab", "\\*", "a\\b", "ab/"]
 # (path, kind, link target): kind E = explicit entry (a starting point), W = entry delivered by walkdir
 ENTRIES = [("r/ab", "W", None), ("r/AB", "W", None), ("r/Ab.c", "W", None), ("r/sub/ab", "W", None), ("r", "E", None), ("r/", "E", None), ("./r/ab", "W", None), ("ab", "E", None),
-           ("r/l", "W", "tgt"), ("r/ab", "W", "TX"), ("r/k", "W", "r/ab"), ("r/*", "W", None), ("r/sub", "W", None)]
+           ("r/l", "W", "tgt"), ("r/ab", "W", "TX"), ("r/k", "W", "r/ab"), ("r/*", "W", None), ("r/sub", "W", None),
+           # a name, a path and a link target that end in a newline: "the match is always against the entire string" - an end anchor that also matches before a final newline is not
+           ("r/ab\n", "W", None), ("r/m", "W", "tgt\n")]
 
 
 def reference(prim, glob, entry):
@@ -71,7 +73,7 @@ def natives(state):
         except om.RegexError as e:
             return Err(Opaque("onig::Error(%s)" % e))
         state["compiled"].append((pattern, syn, sorted(opts)))
-        flags = ("fold" if "IGNORECASE" in opts else "") + ("+dotall" if "MULTILINE" in opts else "")
+        flags = ("fold" if "IGNORECASE" in opts else "") + ("+dotall" if "MULTILINE" in opts else "") + ("+single" if "SINGLELINE" in opts else "")
         return Ok(Struct("OnigRegex", [ast, flags.lstrip("+") or False]))
 
     def is_match(m, a):
